@@ -4,7 +4,8 @@ import sprop, gen_ca
 
 FILES = ['theories/Base.v', 'theories/gen/Codec.v', 'theories/gen/Tp21Gen.v', 'theories/gen/CaGen.v', 'theories/CodecGlue.v',
          'theories/Model21.v', 'theories/Replay21.v', 'proofs/CodecProofs.v', 'proofs/Flat.v', 'proofs/Tp21Resp.v',
-         'proofs/ClaimProofs.v', 'proofs/CaProofs.v']
+         'proofs/ClaimProofs.v', 'proofs/CaProofs.v',
+         'theories/SkelDefs.v', 'theories/FlowDefs.v', 'theories/gen/SkelGen.v', 'proofs/FlowProofs.v', 'proofs/OrderProofs.v']
 NORMAL = 2
 
 
